@@ -2,9 +2,9 @@ package c20
 
 import (
 	"bytes"
-	"net"
 	"encoding/json"
 	"fmt"
+	"net"
 	"os"
 	"os/exec"
 	"path/filepath"
@@ -67,9 +67,9 @@ func genRace(t *rapid.T) RaceCase {
 }
 
 type opReport struct {
-	Executed map[string]int `json:"executed"`
-	Hang     string         `json:"hang,omitempty"`
-	Transfers int           `json:"transfers"`
+	Executed  map[string]int `json:"executed"`
+	Hang      string         `json:"hang,omitempty"`
+	Transfers int            `json:"transfers"`
 }
 
 // stress runs in the race-instrumented child.
